@@ -89,8 +89,11 @@ int32_t jls_buf_realloc(struct jls_buf_s * self, size_t size) {
 
     size_t alloc_size = self->alloc_size;
     while (alloc_size < size) {
-        alloc_size *= alloc_size;
+        alloc_size *= 2;
     }
+    // realloc may move the buffer: keep cur and end relative to start
+    size_t cur_offset = (NULL != self->cur) ? (size_t) (self->cur - self->start) : 0;
+    size_t end_offset = (NULL != self->cur) ? (size_t) (self->end - self->start) : 0;
 
     uint8_t * ptr = realloc(self->start, alloc_size);
     if (NULL == ptr) {
@@ -98,6 +101,10 @@ int32_t jls_buf_realloc(struct jls_buf_s * self, size_t size) {
         return JLS_ERROR_NOT_ENOUGH_MEMORY;
     }
     self->start = ptr;
+    if (NULL != self->cur) {
+        self->cur = ptr + cur_offset;
+        self->end = ptr + end_offset;
+    }
     self->alloc_size = alloc_size;
     return 0;
 }
